@@ -223,6 +223,46 @@ func checkC12(c *Ctx) {
 		}
 	}
 
+	// ---- C12-BT: the raw (backtick) printing mode is set only by the reader, never copied to another string
+	{
+		strT := c.named("SexpStr")
+		bt := c.field("SexpStr", "backtick")
+		n := 0
+		if strT != nil && bt != nil {
+			parserT := c.named("Parser")
+			for _, f := range c.zygoFuncs() {
+				eachInstr(f, func(b *ssa.BasicBlock, i int, in ssa.Instruction) {
+					st, ok := in.(*ssa.Store)
+					if !ok {
+						return
+					}
+					// explicit store to the flag
+					if fa, ok := st.Addr.(*ssa.FieldAddr); ok && faField(fa) == bt {
+						n++
+						okWriter := parserT != nil && isMethodOf(f, parserT)
+						if k, ok := st.Val.(*ssa.Const); ok && k.Value != nil && k.Value.String() == "false" {
+							okWriter = true
+						}
+						c.check(okWriter, "C12-BT", fnName(f), "raw-printing flag set by the reader only", st.Pos(),
+							"the backtick flag is set where a backtick literal was read", "the backtick flag of a string is set outside the reader: a string that may contain a backtick is printed raw between backticks and does not read back")
+						return
+					}
+					// whole-struct copy of a string value
+					if nm, ok := st.Val.Type().(*types.Named); ok && nm == strT {
+						if ld, ok := st.Val.(*ssa.UnOp); ok && ld.Op == token.MUL {
+							n++
+							c.bad("C12-BT", fnName(f), "string value copied wholesale", st.Pos(),
+								"a SexpStr is copied as a whole (`*str`), which carries the reader's private backtick flag to a string whose text is then changed: if the new text contains a backtick it is printed raw between backticks and the printed form is rejected or read back as different data")
+						}
+					}
+				})
+			}
+		}
+		if n == 0 {
+			c.undecided("C12-BT", "SexpStr", "backtick flag", token.NoPos, "no write of the backtick flag found")
+		}
+	}
+
 	// ---- C12-NUM
 	c.checkTokenArms()
 
